@@ -9,14 +9,57 @@ client: get_history (confirmed part ordered, mempool part as a set with fee and 
 get_mempool, get_balance, listunspent for every watched script and id_from_pos for every
 position of the top four heights equal the answer implied by the daemon's final chain and
 mempool; positions beyond a block and heights beyond the tip are refused.
+Part B (vf/slicedsys.py): worker jobs are not atomic in the server - the same oracle after the
+cache-populating queries were served at EVERY slice point (storage / file operation) of every
+advance_block / backup_block / flush_dbs job of 9 scenarios.
 '''
-from vf import common, explore, fullrun
+from vf import common, explore, fullrun, slicedsys
 from vf.common import farm, finish
 
 PROP = 'C10'
+SLICED = ('enter-confirm', 'two-blocks', 'reorg-return', 'reorg-reconfirm', 'reorg-vanish-depth2',
+          'reorg-depth2-distinct-scripts', 'forced-switched', 'pressure-flush', 'untouched-block')
+
+
+def inject_queries(variant):
+    '''Cache-populating queries by client c2, served in the middle of a worker job.'''
+    def f(s):
+        c = s.x_clients['c2']
+        tip = len(s.x_blocks) - 1
+        if variant == 0:
+            for k in fullrun.WATCH:
+                c.request('blockchain.scripthash.get_history', [fullrun.sh(k)])
+            c.request('blockchain.scripthash.listunspent', [fullrun.sh('A')])
+        else:
+            for h in (tip - 1, tip, tip + 1):
+                for pos in (0, 1):
+                    c.request('blockchain.transaction.id_from_pos', [h, pos, False])
+                c.request('blockchain.transaction.id_from_pos', [h, 1, True])
+            c.request('blockchain.scripthash.get_history', [fullrun.sh('A')])
+            c.request('blockchain.scripthash.get_balance', [fullrun.sh('D')])
+    return f
+
+
+def case_sliced(case, res):
+    '''Part B: the queries are served at slice point k of the mutating worker jobs.'''
+    scn = fullrun.scenarios()[case['scenario']]
+
+    def judge(run):
+        return [(k + ':' + case['scenario'] + ':served-mid-job', d)
+                for k, d in fullrun.judge_c10(run, res)]
+
+    found = slicedsys.enumerate_points(
+        lambda: fullrun.make(scn, immediate=True), lambda s: scn['script'](),
+        inject_queries(case['variant']), judge, res, case['scenario'], closing_ticks=12,
+        only_k=case.get('k'))
+    for k, key, detail in found:
+        res.violation(key, dict(case, k=k), detail)
+    res.distinct('sliced_scenarios', case['scenario'])
 
 
 def run_case(case, res):
+    if 'sliced' in case:
+        return case_sliced(case, res)
     scn = fullrun.c10_scenarios()[case['scenario']]
 
     def judge(run):
@@ -39,6 +82,9 @@ def cases_for(tier):
     if tier != 'quick':
         cases = [c for c in cases if c['scenario'] not in BOUND2]
         cases += [dict(scenario=name, bound=2, shard=[i, 16]) for name in BOUND2 for i in range(16)]
+    for name in SLICED:
+        for variant in (0, 1):
+            cases.append(dict(sliced=True, scenario=name, variant=variant))
     return cases
 
 
@@ -49,7 +95,8 @@ def run(tier, seed, started):
     c = res.counters
     kinds = res.sets.get('deviation_kinds', set())
     if c.get('executions', 0) < 300 or not {'next', 'hold', 'stall'} <= kinds or \
-            c.get('queries_judged', 0) < 10000:
+            c.get('queries_judged', 0) < 10000 or c.get('sliced_executions', 0) < 200 or \
+            len(res.sets.get('slice_sites', ())) < 6:
         common.vacuous(PROP, res, f'vacuous C10 run: {c} {kinds}')
     coverage = {
         'evaluations': c['executions'],
@@ -58,6 +105,8 @@ def run(tier, seed, started):
                  'choice vector with total deviation cost <= bound; distinct = (scenario, vector)'),
         'deviation_bound_completed': 1 if tier == 'quick' else '2 on ' + ', '.join(BOUND2) + '; 1 on the others',
         'choice_points': c['choice_points'], 'queries_judged_at_quiescence': c['queries_judged'],
+        'sliced_executions(queries served mid-job)': c['sliced_executions'],
+        'slice_sites': sorted(map(str, res.sets.get('slice_sites', ()))),
         'deviation_kinds_used': sorted(kinds),
         'exhaustive': c.get('exploration_cap_hits', 0) == 0,
     }
